@@ -42,6 +42,9 @@ label = st.one_of(
     st.text(alphabet=st.characters(blacklist_categories=("Cs",), blacklist_characters="\n\r"), min_size=1, max_size=12),
     st.text(alphabet=list("abcXYZ #,;|:\t-_/()éß日本"), min_size=1, max_size=10),
     st.sampled_from(["C:maj", "verse 1", "a, b", "x;y", "N", "# not a comment", "a | b", "multi  space", "tab\there"]),
+    # strings that are not in a Unicode normal form (decomposed accents as macOS writes them, compatibility characters): "exactly the
+    # written strings" includes their code points
+    st.sampled_from(["Cafe\u0301", "e\u0301tude no\u0308el", "\u2126", "\u212b", "\ufb01n", "\u1e9b\u0323", "\u00c5ngstro\u0308m", "q\u0323\u0307", "\uac00\u1100\u1161"]),
 ).filter(lambda s: s == s.strip() and len(s) > 0 and not any(c in "\n\r\x0b\x0c\x1c\x1d\x1e\x85  " for c in s))
 DELIMS = [[" ", r"\s+"], ["\t", r"\s+"], ["  \t ", r"\s+"], [",", ","], [";", ";"], ["\t", "\t"], [" | ", r" \| "]]
 
